@@ -483,9 +483,14 @@ var selPalette = []*corev1.NodeSelector{
 	{NodeSelectorTerms: []corev1.NodeSelectorTerm{}},
 	{NodeSelectorTerms: []corev1.NodeSelectorTerm{{MatchExpressions: []corev1.NodeSelectorRequirement{rq("zone", "In", "a")}}, {MatchExpressions: []corev1.NodeSelectorRequirement{rq("gpu", "Exists")}}}},
 	sel(rq("in", "In", "notin")), sel(rq("zone", "Equals", "a")), sel(rq("Bad*Key", "Exists")), sel(rq("rack", "Gt", "x")),
+	// field selectors (translated to requirements keyed by the field name), alone and next to expressions
+	{NodeSelectorTerms: []corev1.NodeSelectorTerm{{MatchFields: []corev1.NodeSelectorRequirement{rq("metadata.name", "In", "n1", "n2")}}}},
+	{NodeSelectorTerms: []corev1.NodeSelectorTerm{{MatchExpressions: []corev1.NodeSelectorRequirement{rq("zone", "In", "a")}, MatchFields: []corev1.NodeSelectorRequirement{rq("metadata.name", "NotIn", "n3")}}}},
+	// the empty label value, listed alone and among others
+	sel(rq("gpu", "In", "")), sel(rq("gpu", "NotIn", "", "1")), sel(rq("gpu", "In", "", "1"), rq("zone", "NotIn", "a")),
 }
 
-var labelPalette = []string{"-", "-", "zone=a", "zone=b", "zone=a,gpu=1", "rack=7", "zone=a,rack=3", "zone=c,gpu=", "rack=12,zone=b", "in=notin,zone=a", "rack=x"}
+var labelPalette = []string{"-", "-", "zone=a", "zone=b", "zone=a,gpu=1", "rack=7", "zone=a,rack=3", "zone=c,gpu=", "rack=12,zone=b", "in=notin,zone=a", "rack=x", "metadata.name=n1,zone=a"}
 
 type gen struct {
 	profile string
@@ -496,6 +501,7 @@ type gen struct {
 	lines []string
 	stat  map[string]int
 	dead  bool
+	last  string // observation of the last event
 }
 
 func (g *gen) do(line string) {
@@ -503,6 +509,7 @@ func (g *gen) do(line string) {
 		return
 	}
 	r := g.w.exec(line)
+	g.last = r.obs
 	g.o.Emit(line, r.obs)
 	g.lines = append(g.lines, line)
 	k := strings.Fields(line)[0]
@@ -668,7 +675,7 @@ func planSelects(p ccPlan, labels map[string]string) bool {
 	if p.sel == nil {
 		return true
 	}
-	key, err := ipam.VerifNodeSelectorKey(&v1.ClusterCIDR{Spec: v1.ClusterCIDRSpec{NodeSelector: p.sel}})
+	key, err := ipam.VerifNodeSelectorKey(&v1.ClusterCIDR{Spec: v1.ClusterCIDRSpec{NodeSelector: p.sel.DeepCopy()}})
 	if err != nil {
 		return false
 	}
@@ -712,6 +719,8 @@ var orderSel = []*corev1.NodeSelector{
 var orderRanges = []rangeChoice{
 	{"10.0.0.0/24", "", 6}, {"10.0.1.0/24", "", 6}, {"10.0.2.0/24", "", 7}, {"10.0.3.0/25", "", 6}, {"10.0.4.0/26", "", 4}, {"10.0.5.0/27", "", 4},
 	{"10.0.6.0/28", "", 4}, {"10.0.7.0/26", "", 5}, {"10.0.8.0/25", "", 5}, {"10.0.9.0/27", "", 5},
+	// ranges whose order as strings differs from their numeric order (ties down to the last key)
+	{"10.0.20.0/24", "", 6}, {"10.0.100.0/24", "", 6}, {"10.0.30.0/27", "", 4}, {"10.0.200.0/27", "", 4},
 }
 
 func (g *gen) pickPlans() {
@@ -723,7 +732,7 @@ func (g *gen) pickPlans() {
 		for len(g.plans) < n {
 			rc := orderRanges[rng.Intn(len(orderRanges))]
 			s := orderSel[rng.Intn(len(orderSel))]
-			key, _ := ipam.VerifNodeSelectorKey(&v1.ClusterCIDR{Spec: v1.ClusterCIDRSpec{NodeSelector: s}})
+			key, _ := ipam.VerifNodeSelectorKey(&v1.ClusterCIDR{Spec: v1.ClusterCIDRSpec{NodeSelector: s.DeepCopy()}})
 			sig := key + "/" + rc.v4 + "/" + strconv.Itoa(rc.hb)
 			if seen[sig] {
 				continue
@@ -743,7 +752,7 @@ func (g *gen) pickPlans() {
 		if prim == "" {
 			prim = rc.v6
 		}
-		key, kerr := ipam.VerifNodeSelectorKey(&v1.ClusterCIDR{Spec: v1.ClusterCIDRSpec{NodeSelector: s}})
+		key, kerr := ipam.VerifNodeSelectorKey(&v1.ClusterCIDR{Spec: v1.ClusterCIDRSpec{NodeSelector: s.DeepCopy()}})
 		if kerr != nil {
 			key = "!" + encRawSel(s)
 		}
@@ -986,6 +995,13 @@ func genHistory(o *Out, rng *rand.Rand, id int, length int, profile string) []st
 						}
 					}
 					g.do(fmt.Sprintf("procNode %s %d %s", n, b2i(refresh), g.randWs(3)))
+					// retry storm: an item that keeps failing is retried far beyond any plausible retry budget
+					if rng.Intn(20) == 0 && strings.Contains(g.last, "res=err") {
+						for t := 0; t < 18 && !g.dead && w.nodeQ.pending[n] && strings.Contains(g.last, "res=err"); t++ {
+							g.do(fmt.Sprintf("procNode %s 0 fail,fail,fail", n))
+						}
+						g.stat["retry-storm-node"]++
+					}
 				}
 			}
 		case x < 97:
@@ -995,7 +1011,14 @@ func genHistory(o *Out, rng *rand.Rand, id int, length int, profile string) []st
 					if rng.Intn(5) == 0 {
 						wo = []string{"fail", "lost"}[rng.Intn(2)]
 					}
-					g.do(fmt.Sprintf("procCC %s %s", ks[rng.Intn(len(ks))], wo))
+					c := ks[rng.Intn(len(ks))]
+					g.do(fmt.Sprintf("procCC %s %s", c, wo))
+					if rng.Intn(20) == 0 && strings.Contains(g.last, "res=err") {
+						for t := 0; t < 18 && !g.dead && w.ccQ.pending[c] && strings.Contains(g.last, "res=err"); t++ {
+							g.do(fmt.Sprintf("procCC %s fail", c))
+						}
+						g.stat["retry-storm-cc"]++
+					}
 				}
 			}
 		default:
